@@ -4,6 +4,7 @@ package main
 
 import (
 	"fmt"
+	"go/constant"
 	"go/types"
 	"strings"
 
@@ -439,6 +440,28 @@ func (x *Exec) evalCall(fc *frameCtx, st, old *State, e *CExpr, b binds) TV {
 		return TV{x.refOf(arg(0)), types.NewPointer(pkg.Types.Scope().Lookup("Error").Type())}
 	case "strlen":
 		return TV{x.strLen(arg(0).V.(*Term)), tInt}
+	case "entrystate":
+		// scanner entry states, read off the generated code by E-SCAN
+		v := arg(0).V.(*Term)
+		var ds []*Term
+		for _, n := range x.W.scanEntryStates() {
+			ds = append(ds, tEq(v, mkInt(n)))
+		}
+		if len(ds) == 0 {
+			oos("entrystate() outside the scanner engine")
+		}
+		return TV{tOr(ds...), tBoolT}
+	case "reststate":
+		// states in which Lex may rest at the end of the input: those without an end-of-input action
+		v := arg(0).V.(*Term)
+		var ds []*Term
+		for _, n := range x.W.scanRestStates() {
+			ds = append(ds, tEq(v, mkInt(n)))
+		}
+		if len(ds) == 0 {
+			oos("reststate() outside the scanner engine")
+		}
+		return TV{tOr(ds...), tBoolT}
 	case "lower":
 		x.Sc.DeclareFun("str.lower", []string{SInt}, SInt)
 		return TV{mkApp("str.lower", SInt, arg(0).V.(*Term)), types.Typ[types.String]}
@@ -502,6 +525,15 @@ func (x *Exec) globalTV(fc *frameCtx, st *State, name string) *TV {
 	}
 	sp := x.W.SSAPkgs[pkg]
 	if sp == nil {
+		return nil
+	}
+	if nc, ok := sp.Members[name].(*ssa.NamedConst); ok {
+		// integer package-level constants may be used by name (e.g. the ragel entry points lexer_en_*)
+		if b, isB := nc.Type().Underlying().(*types.Basic); isB && b.Info()&types.IsInteger != 0 {
+			if v, exact := constant.Int64Val(constant.ToInt(nc.Value.Value)); exact {
+				return &TV{mkInt(v), nc.Type()}
+			}
+		}
 		return nil
 	}
 	g, ok := sp.Members[name].(*ssa.Global)
